@@ -99,6 +99,10 @@ def menu():
     for v in ('0.004,2.3', '0.003,4,1', '0.01,1,2'):
         add('insul=' + v, lambda a, v=v: a + ['--insulation-load=' + v])
     for name, ms in (('ideal', ['--medium=0,0,0']), ('1real', ['--medium=13,0.005,0']),
+                     ('1real-circ', ['--medium=13,0.005,0', '--boundary=circular']), ('1real-lin', ['--medium=13,0.005,0', '--boundary=linear']),
+                     ('ideal-circ', ['--medium=0,0,0', '--boundary=circular']),
+                     ('3lin', ['--medium=13,0.005,0,5', '--medium=80,4,-1,20', '--medium=3,0.001,0', '--boundary=linear']),
+                     ('4circ-rad', ['--medium=13,0.005,0,5', '--medium=80,4,-1,20', '--medium=3,0.001,-2.5,40', '--medium=5,0.002,-1', '--radial-count=16', '--radial-radius=0.001']),
                      ('2lin', ['--medium=13,0.005,0,5', '--medium=3,0.001,-1', '--boundary=linear']),
                      ('3circ', ['--medium=13,0.005,0,5', '--medium=80,4,-1,20', '--medium=3,0.001,-2.5', '--boundary=circular']),
                      ('rad', ['--medium=13,0.005,0,8', '--medium=3,0.001,0', '--radial-count=120', '--radial-radius=0.0005'])):
